@@ -3,6 +3,7 @@
 package c19
 
 import (
+	"bufio"
 	"bytes"
 	"context"
 	"errors"
@@ -21,6 +22,8 @@ import (
 
 	"github.com/prometheus/alertmanager/cluster"
 	"github.com/prometheus/alertmanager/cluster/clusterpb"
+	"github.com/prometheus/alertmanager/featurecontrol"
+	"github.com/prometheus/alertmanager/matcher/compat"
 	"github.com/prometheus/alertmanager/nflog"
 	nfpb "github.com/prometheus/alertmanager/nflog/nflogpb"
 	"github.com/prometheus/alertmanager/silence"
@@ -57,8 +60,9 @@ type DOp struct {
 	Resolved []uint64 `json:"resolved,omitempty"`
 	Expiry   int64    `json:"expiry,omitempty"`
 	// silset / silexpire
-	Sil int   `json:"sil,omitempty"` // logical silence (index into the ids created at this peer so far; -1 = new)
-	Dur int64 `json:"dur,omitempty"`
+	LabelName string `json:"labelname,omitempty"` // silset: matcher label name (a UTF-8-only one needs the sender in UTF-8 mode)
+	Sil       int    `json:"sil,omitempty"`       // logical silence (index into the ids created at this peer so far; -1 = new)
+	Dur       int64  `json:"dur,omitempty"`
 	// deliver / raw / pushpull / craft
 	Pool   int        `json:"pool,omitempty"`
 	Mut    string     `json:"mut,omitempty"` // "" | flip | trunc | append | rekey
@@ -97,6 +101,7 @@ type stateRT struct {
 	logShadow *nflog.Log
 	sil       *silence.Silences
 	silShadow *silence.Silences
+	silRef    map[string]time.Time // reference semantics of a silence store: id -> UpdatedAt, last write wins
 	rig       *channelRig
 	rec       [][]byte // inner payloads handed to broadcast since last cleared
 }
@@ -123,6 +128,8 @@ type delegRun struct {
 	tags   map[string]int
 	hist   []string
 	silent *slog.Logger
+
+	lastRefDiff []string // silence states that differed from the last-write-wins reference at the last view()
 }
 
 func (d *delegRun) violate(key, what string) {
@@ -136,6 +143,16 @@ func (d *delegRun) canonID(id string) string {
 		d.canon[id] = n
 	}
 	return fmt.Sprintf("S%03d", n)
+}
+
+// setMatcherMode sets the process-wide matcher / label-name mode (matcher/compat): "" = default UTF-8 mode,
+// featurecontrol.FeatureClassicMode = classic.
+func setMatcherMode(l *slog.Logger, features string) {
+	f, err := featurecontrol.NewFlags(l, features)
+	if err != nil {
+		panic(err)
+	}
+	compat.InitFromFlags(l, f)
 }
 
 func (d *delegRun) build() {
@@ -176,6 +193,7 @@ func (d *delegRun) build() {
 					return x
 				}
 				s.sil, s.silShadow = mk(), mk()
+				s.silRef = map[string]time.Time{}
 				s.sil.SetBroadcast(bc)
 				st = s.sil
 			}
@@ -307,6 +325,12 @@ func coqSilRows(rows []silRow) string {
 
 // view of a peer: Coq term of type list (string * kobs) + per-state real-vs-shadow comparison (direct oracle)
 func (d *delegRun) view(pi int) (term string, diff []string) {
+	term, diff, refDiff := d.view3(pi)
+	d.lastRefDiff = refDiff
+	return term, diff
+}
+
+func (d *delegRun) view3(pi int) (term string, diff, refDiff []string) {
 	var items []string
 	for _, s := range d.peers[pi].states {
 		if s.isNfl {
@@ -321,10 +345,13 @@ func (d *delegRun) view(pi int) (term string, diff []string) {
 			if fmt.Sprint(rows) != fmt.Sprint(srows) {
 				diff = append(diff, s.key)
 			}
+			if fmt.Sprint(rows) != fmt.Sprint(d.refRows(s.silRef)) {
+				refDiff = append(refDiff, s.key)
+			}
 			items = append(items, vh.Pair(vh.Str(s.key), vh.App("OSil", coqSilRows(rows))))
 		}
 	}
-	return vh.List(items), diff
+	return vh.List(items), diff, refDiff
 }
 
 // ---- decoding of payloads (the harness' own, independent of the delegate) ----
@@ -400,6 +427,50 @@ func decodeBoth(b []byte) decoded {
 	return dc
 }
 
+// refMergeSil: what Silences.Merge does to (id, UpdatedAt), stated independently of silence.go: the payload is a
+// sequence of length-delimited MeshSilence records; if any record fails to decode or has no Silence the payload is
+// refused whole; otherwise every record that has not expired replaces what is stored under its id iff nothing is
+// stored or its UpdatedAt is strictly later. NO validation of the silence's content (matchers, label names): an
+// entry the receiver's configuration would not accept from its own API never blocks the others.
+func refMergeSil(ref map[string]time.Time, data []byte, now time.Time) bool {
+	type rec struct{ up, exp time.Time }
+	batch := map[string]rec{}
+	br := bufio.NewReader(bytes.NewReader(data))
+	for {
+		var e silpb.MeshSilence
+		err := protodelim.UnmarshalFrom(br, &e)
+		if err == nil {
+			if e.Silence == nil {
+				return false
+			}
+			batch[e.Silence.Id] = rec{e.Silence.UpdatedAt.AsTime(), e.ExpiresAt.AsTime()}
+			continue
+		}
+		if errors.Is(err, io.EOF) {
+			break
+		}
+		return false
+	}
+	for id, r := range batch {
+		if r.exp.Before(now) {
+			continue
+		}
+		if prev, ok := ref[id]; !ok || prev.Before(r.up) {
+			ref[id] = r.up
+		}
+	}
+	return true
+}
+
+func (d *delegRun) refRows(ref map[string]time.Time) []silRow {
+	var rows []silRow
+	for id, t := range ref {
+		rows = append(rows, silRow{d.canonID(id), t.UnixNano()})
+	}
+	sort.Slice(rows, func(i, j int) bool { return rows[i].id < rows[j].id })
+	return rows
+}
+
 // applyShadow: the reference semantics of one understood part = a direct Merge into the shadow copy of the state.
 // Returns the Coq payload term.
 func (d *delegRun) applyShadow(pi int, key string, data []byte, live bool) (term string, failed, known bool) {
@@ -416,11 +487,12 @@ func (d *delegRun) applyShadow(pi int, key string, data []byte, live bool) (term
 				for _, id := range silIDsOf(data) {
 					d.canonID(id)
 				}
-				if err := s.silShadow.Merge(data); err != nil {
+				_ = s.silShadow.Merge(data) // the shadow copy: compared with the real state in view()
+				if !refMergeSil(s.silRef, data, time.Now()) {
 					failed = true
 					silTerm = `(Err "merge")`
 				} else {
-					silTerm = vh.App("Ok", coqSilRows(d.silRows(s.silShadow)))
+					silTerm = vh.App("Ok", coqSilRows(d.refRows(s.silRef)))
 				}
 			}
 		}
@@ -520,6 +592,13 @@ func (d *delegRun) deliverBytes(pi int, b []byte, via string, what string) {
 	}
 	vt, diff := d.view(pi)
 	d.hist = append(d.hist, fmt.Sprintf("(%s, %s, %s, mkOut true %s)", vh.Z(now), vh.Nat(pi), opTerm, vt))
+	if len(d.lastRefDiff) > 0 {
+		key := "silence-update-not-merged"
+		if via == "merge" {
+			key = "silence-part-of-full-state-not-merged"
+		}
+		d.violate(key, fmt.Sprintf("%s (%s) at peer %d: silence state(s) %v differ from last-write-wins on (id, UpdatedAt) over the decodable records: an entry was refused for its content, or one entry blocked the others", what, via, pi, d.lastRefDiff))
+	}
 	if len(diff) > 0 {
 		key := "delivered-update-not-merged"
 		switch {
@@ -578,6 +657,7 @@ func (d *delegRun) localUpdateToShadow(s *stateRT) {
 			err = s.logShadow.Merge(b)
 		} else {
 			err = s.silShadow.Merge(b)
+			refMergeSil(s.silRef, b, time.Now())
 		}
 		if err != nil {
 			d.violate("own-broadcast-not-mergeable", "a locally produced broadcast payload fails Merge: "+s.key)
@@ -636,8 +716,18 @@ func (d *delegRun) exec(op *DOp) {
 			}
 			_ = s.sil.Expire(ctx, pr.silIDs[op.Sil%len(pr.silIDs)])
 		} else {
+			lname := "job"
+			if op.LabelName != "" {
+				lname = op.LabelName
+				// the SENDING instance runs in the default (UTF-8) matcher mode; every receiver in this harness runs
+				// in classic mode (set at the start of the case, also the package default). The mode is process-wide:
+				// switch it only around this Set and always switch back.
+				setMatcherMode(d.silent, "")
+				defer setMatcherMode(d.silent, featurecontrol.FeatureClassicMode)
+				d.tags["silset-utf8-only-label-name"]++
+			}
 			sil := &silpb.Silence{
-				MatcherSets: []*silpb.MatcherSet{{Matchers: []*silpb.Matcher{{Type: silpb.Matcher_EQUAL, Name: "job", Pattern: fmt.Sprintf("j%d", op.Sil&3)}}}},
+				MatcherSets: []*silpb.MatcherSet{{Matchers: []*silpb.Matcher{{Type: silpb.Matcher_EQUAL, Name: lname, Pattern: fmt.Sprintf("j%d", op.Sil&3)}}}},
 				StartsAt:    timestamppb.New(time.Unix(0, now)),
 				EndsAt:      timestamppb.New(time.Unix(0, now+op.Dur)),
 				Comment:     "c", CreatedBy: "verif",
@@ -802,6 +892,9 @@ func (d *delegRun) exec(op *DOp) {
 
 func runDeleg(t *testing.T, c *DelegCase) (string, []vh.Violation, map[string]int) {
 	d := &delegRun{t: t, c: c, canon: map[string]int{}, tags: map[string]int{}, silent: slog.New(slog.NewTextHandler(io.Discard, nil))}
+	// receivers run in classic mode (which is also matcher/compat's package default, so the process is left as it was)
+	setMatcherMode(d.silent, featurecontrol.FeatureClassicMode)
+	defer setMatcherMode(d.silent, featurecontrol.FeatureClassicMode)
 	synctest.Test(t, func(t *testing.T) {
 		d.build()
 		for i := range c.Ops {
@@ -1079,6 +1172,38 @@ func genServedThenEdited(r *vh.Rand) *DelegCase {
 			add(DOp{Kind: "tick", Dt: int64(time.Second), Peer: a})
 		}
 		add(DOp{Kind: "pushpull", Dt: int64(time.Second), Peer: other(), From: a}) // served again
+	}
+	return c
+}
+
+// genMixedMode: the sender (default UTF-8 mode) stores ordinary silences and one whose matcher uses a UTF-8-only
+// label name; the receivers (classic mode) get the single updates and full states that mix them.
+func genMixedMode(r *vh.Rand) *DelegCase {
+	c := &DelegCase{Retention: int64(time.Hour)}
+	np := r.Range(2, 3)
+	for i := 0; i < np; i++ {
+		c.Peers = append(c.Peers, []Reg{{"sil", false}, {"nfl", true}})
+	}
+	add := func(op DOp) { c.Ops = append(c.Ops, op) }
+	a := r.Intn(np)
+	other := func() int { return (a + 1 + r.Intn(np-1)) % np }
+	odd := vh.Pick(r, []string{"service.name", "k8s.pod/name", "région", "a b"})
+	n := r.Range(2, 4)
+	oddAt := r.Intn(n)
+	for i := 0; i < n; i++ {
+		op := DOp{Kind: "silset", Dt: int64(time.Second), Peer: a, Key: "sil", Sil: -1, Dur: int64(30 * time.Minute)}
+		if i == oddAt {
+			op.LabelName = odd
+		}
+		add(op)
+	}
+	for i := 0; i < n; i++ { // the single updates, in pool order (the pool holds one message per Set)
+		add(DOp{Kind: "deliver", Dt: int64(time.Millisecond), Peer: other(), Pool: i})
+	}
+	add(DOp{Kind: "pushpull", Dt: int64(time.Second), Peer: other(), From: a})
+	if r.Bool() { // a re-joining member: crafted full state [odd-only sil part first is not possible: one part per key]
+		add(DOp{Kind: "silexpire", Dt: int64(time.Minute), Peer: a, Key: "sil", Sil: r.Intn(n)})
+		add(DOp{Kind: "pushpull", Dt: int64(time.Second), Peer: other(), From: a})
 	}
 	return c
 }
